@@ -1828,7 +1828,7 @@ impl Formatter {
     for (i, state) in node.states.iter().enumerate() {
       let v = self.state_definition(state);
       let state_arm = if node.states.len() == 1 {
-        format!("{} {}", "└", v)
+        if self.html { format!("{} {}", "└", v) } else { format!("{} {}{}", "└", v, ".") }
       } else if i == 0 {
         format!("{} {}", "├", v)
       } else if i == node.states.len() - 1 {
@@ -1960,8 +1960,10 @@ impl Formatter {
       <span class=\"mech-state-variables\">{}</span>
       <span class=\"mech-right-paren\">)</span>
       </div>",name,state_variables)
+    } else if node.state_variables.is_none() {
+      format!(":{}", name)
     } else {
-      format!("{}({})", name, state_variables)
+      format!(":{}({})", name, state_variables)
     }
   }
 
